@@ -1271,6 +1271,95 @@ func TestConst32(t *testing.T) {
 	}
 }
 
+// chain positions: two constants in a row on a variable operand, (a + K1) - K2 etc. Go evaluates left to right in the
+// operand's type (rounding or wrapping after every step); an optimizer must not merge the constants.
+var chainForms = []struct {
+	Name string
+	Ops  [2]string
+	Body func(T, k1, k2 string) string
+}{
+	{"pp", [2]string{"+", "+"}, func(T, k1, k2 string) string { return "return a + " + k1 + " + " + k2 }},
+	{"pm", [2]string{"+", "-"}, func(T, k1, k2 string) string { return "return a + " + k1 + " - " + k2 }},
+	{"mp", [2]string{"-", "+"}, func(T, k1, k2 string) string { return "return a - " + k1 + " + " + k2 }},
+	{"mm", [2]string{"-", "-"}, func(T, k1, k2 string) string { return "x := a; x = x - " + k1 + " - " + k2 + "; return x" }},
+	{"ppg", [2]string{"+", "+"}, func(T, k1, k2 string) string { return "GA = a; GA = GA + " + k1 + " + " + k2 + "; return GA" }},
+	{"pmparen", [2]string{"+", "-"}, func(T, k1, k2 string) string { return "return (a + " + k1 + ") - " + k2 }},
+}
+
+func chainConsts(t ntype) []num {
+	switch t {
+	case tF64:
+		return []num{mkf(1), mkf(2), mkf(3), mkf(100), mkf(1e6), mkf(4000000000)}
+	case tI8:
+		return []num{mk(t, 1), mk(t, 100), mk(t, 127), mk(t, 64)}
+	case tU8:
+		return []num{mk(t, 1), mk(t, 200), mk(t, 255), mk(t, 128)}
+	case tI32:
+		return []num{mk(t, 1), mk(t, 3), mk(t, 2147483647), mk(t, 1<<30), mk(t, 65536)}
+	}
+	return []num{mk(t, 1), mk(t, 3), mk(t, 4294967295), mk(t, 1<<31), mk(t, 3000000000)}
+}
+
+// TestChains: every pair of chain constants x boundary operands x chain forms, all five types, optimizer on and off.
+func TestChains(t *testing.T) {
+	r := ev.R()
+	r.Disjoint()
+	idx := 0
+	for _, ty := range allTypes {
+		T := typeSpell[ty][0]
+		ks := chainConsts(ty)
+		var sb strings.Builder
+		sb.WriteString(header(T))
+		for i, k1 := range ks {
+			for j, k2 := range ks {
+				for _, f := range chainForms {
+					fmt.Fprintf(&sb, "func c_%s_%d_%d(a %s) any { %s }\n", f.Name, i, j, T, f.Body(T, intLit(k1), intLit(k2)))
+				}
+			}
+		}
+		for _, opt := range []bool{true, false} {
+			idx++
+			if !r.Mine(idx) {
+				continue
+			}
+			s, fl := load(sb.String(), opt)
+			if fl != nil {
+				r.Fail(t, fl)
+				return
+			}
+			cnt := counter(r, true, nil)
+			as := boundary(ty)
+			if ty == tF64 {
+				as = append(as, mkf(0.1), mkf(1e-20), mkf(0.3), mkf(1e16), mkf(-0.1))
+			}
+			for i, k1 := range ks {
+				for j, k2 := range ks {
+					for _, f := range chainForms {
+						for _, a := range as {
+							w1 := native(f.Ops[0], a, k1)
+							want := native(f.Ops[1], *w1.Num, k2)
+							cnt(true)
+							if fl := reportBin(s, fmt.Sprintf("c_%s_%d_%d", f.Name, i, j), fmt.Sprintf("%s %s %s %s %s (two constants in a row, form %q)", T, f.Ops[0], intLit(k1), f.Ops[1], intLit(k2), f.Name), want, opt, a); fl != nil {
+								r.Fail(t, fl)
+								return
+							}
+						}
+					}
+				}
+			}
+			r.Sample(map[string]any{"type": T, "optimizer": onoff(opt), "chain_constants": len(ks), "forms": len(chainForms)})
+		}
+	}
+}
+
+// intLit spells a constant without a fractional part (an untyped integer constant, also for float operands).
+func intLit(k num) string {
+	if k.T == tF64 {
+		return fmt.Sprintf("%.0f", k.F)
+	}
+	return fmt.Sprint(k.I)
+}
+
 // TestRandomConst: random constants and operands for the 32-bit and float types.
 func TestRandomConst(t *testing.T) {
 	r := ev.R()
